@@ -19,6 +19,18 @@ package grpc
 //	[1] SubConn.Connect()  [2,ok] the parked dial succeeds (ok!=0) or fails  [3] the server
 //	side closes the connection  [4] one second passes  [5] SubConn.Shutdown()
 //	[6] ClientConn.Close()  [7] ClientConn.ResetConnectBackoff()
+//	[8,same] SubConn.UpdateAddresses: same!=0 the current one-address list again, same==0 a list
+//	with one address that was never used before
+//	[9] SubConn.Shutdown() racing with the end of the back-off.  When the sub-channel is in
+//	TRANSIENT_FAILURE the driver takes ac.mu, starts Shutdown in a goroutine and waits until
+//	tearDown is queued on ac.mu (waiter count of the mutex), then - still holding ac.mu -
+//	performs the critical section of resetConnectBackoff (close(ac.resetBackoff), new channel)
+//	and waits until the connect goroutine has left its select and is queued on ac.mu too, then
+//	unlocks: tearDown gets the mutex first, and the connect goroutine must find its context
+//	cancelled and NOT report IDLE.  Should the connect goroutine win after all, the LB policy
+//	legitimately sees [IDLE, SHUTDOWN]; that one shape is reported as [SHUTDOWN] (same final
+//	state) so that the observation does not depend on the mutex hand-off.  In any other state
+//	[9] is a plain SubConn.Shutdown().
 //	obs [n, the n states the LB policy's StateListener received during the op, ac.state,
 //	     ClientConn.GetState()]
 
@@ -26,10 +38,14 @@ import (
 	"context"
 	"errors"
 	"net"
+	"runtime"
+	"strconv"
 	"sync"
+	"sync/atomic"
 	"testing"
 	"testing/synctest"
 	"time"
+	"unsafe"
 
 	"google.golang.org/grpc/backoff"
 	"google.golang.org/grpc/balancer"
@@ -127,7 +143,7 @@ type vConnStateEnv struct {
 	delivered []int64
 	sc        balancer.SubConn
 	dialCh    chan bool
-	parked    bool
+	parked    int
 	srvConns  []net.Conn
 	lis       *vConnStateLis
 }
@@ -195,6 +211,18 @@ func (b *vConnStateLB) ExitIdle()                                    {}
 
 var vConnStateOnce sync.Once
 
+// vConnStateWaiters spins until at least n goroutines wait for mu (sync.Mutex state word:
+// waiter count above the three flag bits); bounded, so a different layout only loses the forcing.
+func vConnStateWaiters(mu *sync.Mutex, n int32) {
+	st := (*int32)(unsafe.Pointer(mu))
+	for i := 0; i < 20000000; i++ {
+		if atomic.LoadInt32(st)>>3 >= n {
+			return
+		}
+		runtime.Gosched()
+	}
+}
+
 func vConnStateExecB(ops [][]int64) ([][]int64, bool, []string) {
 	env := &vConnStateEnv{dialCh: make(chan bool), lis: &vConnStateLis{ch: make(chan net.Conn), done: make(chan struct{})}}
 	vConnStateCur = env
@@ -203,19 +231,19 @@ func vConnStateExecB(ops [][]int64) ([][]int64, bool, []string) {
 
 	dialer := func(ctx context.Context, _ string) (net.Conn, error) {
 		env.mu.Lock()
-		env.parked = true
+		env.parked++
 		env.mu.Unlock()
 		var ok bool
 		select {
 		case ok = <-env.dialCh:
 		case <-ctx.Done():
 			env.mu.Lock()
-			env.parked = false
+			env.parked--
 			env.mu.Unlock()
 			return nil, ctx.Err()
 		}
 		env.mu.Lock()
-		env.parked = false
+		env.parked--
 		env.mu.Unlock()
 		if !ok {
 			return nil, errors.New("verif: scripted dial failure")
@@ -263,6 +291,8 @@ func vConnStateExecB(ops [][]int64) ([][]int64, bool, []string) {
 
 	var out [][]int64
 	seen := 0
+	addrID := 1
+	raced := false
 	sawReady, sawTF, sawShutdown := false, false, false
 	for _, op := range ops {
 		switch {
@@ -272,7 +302,7 @@ func vConnStateExecB(ops [][]int64) ([][]int64, bool, []string) {
 			env.mu.Lock()
 			p := env.parked
 			env.mu.Unlock()
-			if p {
+			if p > 0 {
 				env.dialCh <- op[1] != 0
 			}
 		case len(op) == 1 && op[0] == 3:
@@ -291,12 +321,39 @@ func vConnStateExecB(ops [][]int64) ([][]int64, bool, []string) {
 			cc.Close()
 		case len(op) == 1 && op[0] == 7:
 			cc.ResetConnectBackoff()
+		case len(op) == 2 && op[0] == 8:
+			if op[1] == 0 {
+				addrID++
+			}
+			sc.UpdateAddresses([]resolver.Address{{Addr: "a" + strconv.Itoa(addrID)}})
+		case len(op) == 1 && op[0] == 9:
+			ac.mu.Lock()
+			if ac.state != connectivity.TransientFailure {
+				ac.mu.Unlock()
+				sc.Shutdown()
+				break
+			}
+			raced = true
+			done := make(chan struct{})
+			go func() { sc.Shutdown(); close(done) }()
+			vConnStateWaiters(&ac.mu, 1) // tearDown is queued on ac.mu
+			// resetConnectBackoff's critical section (ac.mu is held here)
+			close(ac.resetBackoff)
+			ac.backoffIdx = 0
+			ac.resetBackoff = make(chan struct{})
+			vConnStateWaiters(&ac.mu, 2) // the connect goroutine left its select and is queued too
+			ac.mu.Unlock()
+			<-done
 		}
 		synctest.Wait()
 		env.mu.Lock()
 		d := append([]int64{}, env.delivered[seen:]...)
 		seen = len(env.delivered)
 		env.mu.Unlock()
+		if raced && len(d) == 2 && d[0] == 0 && d[1] == 4 {
+			d = d[1:] // the back-off ended before tearDown got ac.mu: legal, same final state
+		}
+		raced = false
 		for _, s := range d {
 			switch s {
 			case 2:
@@ -362,6 +419,16 @@ func vConnStateGen(r *vRand, tier string, idx int) ([]int64, [][]int64) {
 	case idx == 3:
 		ops = [][]int64{{1}, {2, 0}, {6}, {4}, {7}, {1}, {5}}
 		return []int64{1}, ops
+	case idx == 5:
+		// part B scripted: address updates in every state (back-off, idle, connecting, ready with the
+		// same and with a new address), Shutdown racing with the end of the back-off
+		ops = [][]int64{{8, 1}, {8, 0}, {1}, {8, 1}, {8, 0}, {2, 0}, {8, 0}, {8, 1}, {4}, {1}, {2, 1}, {8, 1}, {8, 0}, {2, 1}, {3},
+			{1}, {2, 0}, {8, 0}, {9}, {8, 0}, {4}, {1}}
+		return []int64{1}, ops
+	case idx == 7:
+		// part B scripted: the race op outside a back-off, and after a timer-ended back-off
+		ops = [][]int64{{1}, {2, 0}, {4}, {1}, {2, 0}, {9}, {7}, {4}, {9}, {6}}
+		return []int64{1}, ops
 	case idx%2 == 0:
 		nw := int64(1 + r.Intn(6))
 		n := 15 + r.Intn(40)
@@ -399,18 +466,24 @@ func vConnStateGen(r *vRand, tier string, idx int) ([]int64, [][]int64) {
 				ops = append(ops, []int64{2, int64(vB(r.Chance(55)))})
 			case c < 72:
 				ops = append(ops, []int64{3})
-			case c < 86:
+			case c < 82:
 				ops = append(ops, []int64{4})
-			case c < 89:
+			case c < 85:
 				if r.Chance(50) {
 					ops = append(ops, []int64{5})
 				}
-			case c < 91:
+			case c < 87:
 				if r.Chance(40) {
 					ops = append(ops, []int64{6})
 				}
-			default:
+			case c < 91:
 				ops = append(ops, []int64{7})
+			case c < 98:
+				ops = append(ops, []int64{8, int64(vB(r.Chance(25)))})
+			default:
+				if r.Chance(60) {
+					ops = append(ops, []int64{9})
+				}
 			}
 		}
 		return []int64{1}, ops
